@@ -1,5 +1,5 @@
 """C02: stream tags reach the reader exactly once, on the sample they were attached to."""
-from vlib.engine import select
+from vlib.engine import select, fold
 from vlib.props.ringcommon import multisets, pre_states
 from vlib.props import c01
 
@@ -50,4 +50,4 @@ def all_harnesses():
 
 
 def harnesses(tier, seed):
-    return select(all_harnesses(), tier, seed, 12)
+    return fold(select(all_harnesses(), tier, seed, 12), 4)
